@@ -4,7 +4,7 @@ use crate::fam::{self, Family, V3, V5};
 use crate::gen::GenCfg;
 use crate::model::{self, fnv, hex_short, Kind, Span};
 use crate::run::{CaseResult, Ctx, Env, Input, RunResult, Sub, Violation};
-use crate::sio::Step;
+use crate::sio::{self, Step};
 use crate::tape::Tape;
 use crate::viol;
 
@@ -60,6 +60,7 @@ fn prefixes<F: Family>(p: &F::Packet, t: &mut Tape, ctx: &mut Ctx) -> CaseResult
     let spans = spans_of::<F>(p, &enc);
     let cuts = positions(enc.len(), &spans, t, 400, 24);
     let mut interesting = false;
+    let mut eof_ctr = t.pick(24);
     for &k in &cuts {
         let pre = &enc[..k];
         match F::decode(pre) {
@@ -82,6 +83,55 @@ fn prefixes<F: Family>(p: &F::Packet, t: &mut Tape, ctx: &mut Ctx) -> CaseResult
         match run.result {
             Err(e) if F::is_eof(&e) => {}
             other => viol!("poll decoder on the first {} of {} bytes returned {:?} instead of an EOF error; packet {}", k, enc.len(), other.map(|q| fam::render(&q.pkt)), fam::render(p)),
+        }
+        // other ways a stream can end after k bytes (one of them per cut, rotating): the transport reports the end
+        // as Err(UnexpectedEof) (what TLS wrappers do when the peer vanishes without close_notify) in any payload
+        // shape, to the poll or to the async decoder; or it trickles the prefix in one byte at a time first
+        eof_ctr += 1;
+        let shape = ((eof_ctr / 4) % sio::ERR_SHAPES as usize) as u8;
+        match eof_ctr % 4 {
+            1 => {
+                let run = fam::dec_poll_styled::<F>(pre, &[], 0, None, false, 4 | (shape << 4));
+                match run.result {
+                    Err(e) if F::is_eof(&e) => {}
+                    other => viol!(
+                        "poll decoder on a transport that ends after {} of {} bytes with Err(UnexpectedEof) ({:?}) returned {:?} instead of an EOF error; packet {}",
+                        k,
+                        enc.len(),
+                        sio::make_err(std::io::ErrorKind::UnexpectedEof, shape),
+                        other.map(|q| fam::render(&q.pkt)),
+                        fam::render(p)
+                    ),
+                }
+                ctx.label("eof-as-transport-error:poll");
+            }
+            2 => {
+                let mut rd = sio::ScriptedReader::new(pre, &[]).with_fault_shape(shape);
+                rd.eof_as_error = true;
+                let (r, _) = sio::drive(F::decode_async(&mut rd), pre.len() + 8);
+                match r {
+                    Err(e) if F::is_eof(&e) => {}
+                    other => viol!(
+                        "async decoder on a transport that ends after {} of {} bytes with Err(UnexpectedEof) ({:?}) returned {:?} instead of an EOF error; packet {}",
+                        k,
+                        enc.len(),
+                        sio::make_err(std::io::ErrorKind::UnexpectedEof, shape),
+                        other.map(|q| fam::render(&q)),
+                        fam::render(p)
+                    ),
+                }
+                ctx.label("eof-as-transport-error:async");
+            }
+            3 if k <= 4096 => {
+                let steps: Vec<Step> = (0..k + 2).map(|j| if j % 3 == 2 { Step::Pending } else { Step::Chunk(1) }).collect();
+                let run = fam::dec_poll_styled::<F>(pre, &steps, u64::MAX, None, false, 1 | (eof_ctr as u8 & 4));
+                match run.result {
+                    Err(e) if F::is_eof(&e) => {}
+                    other => viol!("poll decoder fed the first {} of {} bytes one at a time (then end of stream) returned {:?} instead of an EOF error; packet {}", k, enc.len(), other.map(|q| fam::render(&q.pkt)), fam::render(p)),
+                }
+                ctx.label("eof-after-trickle");
+            }
+            _ => {}
         }
         if !spans.is_empty() {
             let (_, kind) = model::region_at(&spans, k.min(enc.len() - 1));
@@ -185,6 +235,11 @@ pub fn run(env: &mut Env) -> RunResult {
     env.require("c07.sized.v5", "sized:2MiB-boundary");
     for s in ["c07.cuts.v3", "c07.cuts.v5"] {
         for l in ["cut:remaining-length", "cut:string-or-binary-data", "cut:length-prefix", "cut:payload", "suffix-ignored"] {
+            env.require(s, l);
+        }
+    }
+    for s in ["c07.cuts.v3", "c07.cuts.v5", "c07.typed.v3", "c07.typed.v5"] {
+        for l in ["eof-as-transport-error:poll", "eof-as-transport-error:async", "eof-after-trickle"] {
             env.require(s, l);
         }
     }
